@@ -29,14 +29,40 @@ fn main() {
                 _ => Tier::Quick,
             };
             match props::by_id(&id) {
-                Some(p) => driver::run_batch(p, tier).exit,
+                Some(_) => driver::supervise(&id, tier),
                 None => {
                     println!("HARNESS-ERROR unknown property {id}");
                     2
                 }
             }
         }
+        Some("batch") => {
+            let id = args.get(2).cloned().unwrap_or_default();
+            let tier = if args.get(3).map(String::as_str) == Some("thorough") {
+                Tier::Thorough
+            } else {
+                Tier::Quick
+            };
+            match props::by_id(&id) {
+                Some(p) => driver::run_batch(p, tier).exit,
+                None => 2,
+            }
+        }
+        Some("one") => {
+            let id = args.get(2).cloned().unwrap_or_default();
+            let index: u64 = args.get(3).and_then(|s| s.parse().ok()).unwrap_or(0);
+            let tier = if args.get(4).map(String::as_str) == Some("thorough") {
+                Tier::Thorough
+            } else {
+                Tier::Quick
+            };
+            driver::one(&id, index, tier)
+        }
         Some("replay") => match args.get(2) {
+            Some(p) => driver::replay_supervised(std::path::Path::new(p)),
+            None => 2,
+        },
+        Some("replay-inner") => match args.get(2) {
             Some(p) => driver::replay(std::path::Path::new(p)),
             None => 2,
         },
